@@ -141,7 +141,12 @@ def ocean_floor(
             # and then use that to mask out each data variable in turn.
 
             # Get an example data array and drop all the non-spatial dimensions.
-            data_array = dataset.data_vars[variable_names[0]].isel(
+            # The ocean floor is found from the missing values of this example,
+            # so prefer a variable of a type that can hold missing values.
+            example_name = next(
+                (name for name in variable_names if dataset.data_vars[name].dtype.kind in 'fc'),
+                variable_names[0])
+            data_array = dataset.data_vars[example_name].isel(
                 {name: 0 for name in non_spatial_dimensions},
                 drop=True, missing_dims='ignore')
             # Then find the ocean floor indexes.
